@@ -3,7 +3,7 @@
 # Confirms a seeded change: with the patch the repository builds and its tests pass while the demo fails;
 # without the patch the demo passes. Works in a scratch worktree that is removed afterwards.
 set -u
-SEED=$(realpath "$1"); PKG="$2"; RUN="${3:-.}"
+SEED=$(realpath "$1"); PKG="$2"; RUN="${3:-.}"; TAGS="${TAGS:-}"   # TAGS="-tags verif" for demos that use the verif shims
 export GOFLAGS=-mod=mod GOPROXY=off
 WT=$(mktemp -d /tmp/wt.confirm.XXXX); rmdir "$WT"
 git -C /repo worktree add -q "$WT" HEAD || exit 2
@@ -12,13 +12,13 @@ trap cleanup EXIT
 cd "$WT"
 DEMO=$(ls "$SEED"/demo*_test.go "$SEED"/demo*.go 2>/dev/null | head -1)
 cp "$DEMO" "$PKG/zz_demo_seed_test.go"
-go test -count=1 -run "$RUN" "./$PKG/" >/tmp/confirm.$$.clean 2>&1; clean_rc=$?
+go test $TAGS -count=1 -run "$RUN" "./$PKG/" >/tmp/confirm.$$.clean 2>&1; clean_rc=$?
 rm -f "$PKG/zz_demo_seed_test.go"
 git apply "$SEED/patch.diff" || { echo "RESULT patch does not apply"; exit 2; }
 go build ./... >/tmp/confirm.$$.build 2>&1; build_rc=$?
 go test -vet=off -count=1 ./pkg/... ./test/... >/tmp/confirm.$$.tests 2>&1; tests_rc=$?
 cp "$DEMO" "$PKG/zz_demo_seed_test.go"
-go test -count=1 -run "$RUN" "./$PKG/" >/tmp/confirm.$$.mut 2>&1; mut_rc=$?
+go test $TAGS -count=1 -run "$RUN" "./$PKG/" >/tmp/confirm.$$.mut 2>&1; mut_rc=$?
 echo "RESULT seed=$SEED demo_clean_rc=$clean_rc build_rc=$build_rc tests_rc=$tests_rc demo_with_patch_rc=$mut_rc"
 if [ $clean_rc -eq 0 ] && [ $build_rc -eq 0 ] && [ $tests_rc -eq 0 ] && [ $mut_rc -ne 0 ]; then echo CONFIRMED; else echo NOT-CONFIRMED; grep -h "FAIL\|panic" /tmp/confirm.$$.tests | head -5; fi
 rm -f /tmp/confirm.$$.*
